@@ -629,6 +629,12 @@ func (self *Analyzer) importItem(node pAst.ImportStatement) ast.AnalyzedImport {
 
 				continue
 			case pAst.IMPORT_KIND_TRIGGER:
+				// the host may know the name as something else than a trigger
+				if imported.Trigger == nil {
+					self.error(fmt.Sprintf("No trigger named '%s' found in module '%s'", item.Ident, node.FromModule), nil, item.Span)
+					continue
+				}
+
 				prev, prevFound := self.currentModule.addTrigger(item.Ident, *imported.Trigger)
 				if prevFound {
 					self.error(fmt.Sprintf("Trigger function '%s' already exists in current module", item.Ident), nil, item.Span)
